@@ -95,10 +95,13 @@ def handle (j : Json) : R Json := do
     let a ← identOf st (← pstateOf st)
     pure (Json.mkObj [("doc", jdoc (persist a))])
   | "load" =>
-    let d ← docOf (← getObj j "doc")
-    match load d with
-    | some a => pure (Json.mkObj [("state", jacc a)])
-    | none => pure (Json.mkObj [("err", true)])
+    -- a required member that is missing / of the wrong type is a KeyError / TypeError in Python
+    match docOf (← getObj j "doc") with
+    | .error _ => pure (Json.mkObj [("err", true)])
+    | .ok d =>
+      match load d with
+      | some a => pure (Json.mkObj [("state", jacc a)])
+      | none => pure (Json.mkObj [("err", true)])
   | "roundtrip" =>
     let st ← getObj j "state"
     let a ← identOf st (← pstateOf st)
